@@ -653,16 +653,15 @@ Definition step_ok (c : cfg) (k : scorecfg) (st : ostate) (o : op) (ob : obs) : 
       match free_capacity c (mkState b (o_lst st) (o_held st) (o_pubs st)) (length s) with
       | None => None
       | Some limit =>
-          let n := (length tcp + length ws + length qu)%nat in
-          let j := match outcome with O => O | S j0 => (j0 mod n)%nat end in
+          (* ground truth of the episode: the address the ConnectionOpened event names, and every
+             address reported failed - in an OpenFailure event of whatever transport, before or
+             after the connection was opened, or in ConnectionOpened.errors *)
           let '(won, failed) :=
             match outcome with
             | O => (None, tcp ++ ws ++ qu)
-            | S _ => if (j <? length tcp)%nat then (nth_error tcp j, firstn j tcp)
-                     else if (j <? length tcp + length ws)%nat
-                          then (nth_error ws (j - length tcp), firstn (j - length tcp) ws)
-                          else (nth_error qu (j - length tcp - length ws),
-                                firstn (j - length tcp - length ws) qu)
+            | S j0 =>
+                let '(before, l, j, after) := dial_episode [] tcp ws qu j0 in
+                (option_map fst (nth_error l j), map fst (before ++ firstn j l ++ after))
             end in
           if negb (peer =? local_peer c) &&
              list_eqb maddr_eqb (map fst t) tcp && list_eqb maddr_eqb (map fst w) ws &&
